@@ -90,8 +90,8 @@ def check_runset(proj, obs, strict=True):
     dup = sorted(x for x, n in cnt.items() if n > max(1, want.get(x, 0)))
     if dup:
         out.append(({"kind": "ran-twice", "world": proj.w.name, "targets": dup}, {"ran": ran, "must": pred["ran"]}))
-    if pred.get("ambiguous"):
-        return out
+    if pred.get("ambiguous") and not pred["ok"]:
+        return out     # several checksummed targets are rebuilt out of band in an unspecified order: which of them ran before a failure is open
     for x in pred.get("overbuilt", []):
         out.append(({"kind": "over-built", "reason": "nested-csum", "cmd": op[0]},
                     {"world": proj.w.name, "target": x, "ran": ran}))
